@@ -14,8 +14,18 @@ use parsley_rust::pcore::prim_ascii::AsciiChar;
 use parsley_rust::pcore::prim_binary::*;
 use parsley_rust::pcore::prim_combinators::{Alt, Alternate, Not, Sequence, Star};
 use parsley_rust::pcore::transforms::{BufferTransformT, RestrictView};
-use parsley_rust::pdf_lib::pdf_obj::{parse_pdf_obj, PDFObjContext, PDFObjT};
+use parsley_rust::pdf_lib::pdf_content_streams::{CSObjP, CSObjT, TextExtractor, TextToken};
+use parsley_rust::pdf_lib::pdf_file::{BodyP, HeaderP, StartXrefP, TrailerP, XrefSectP};
+use parsley_rust::pdf_lib::pdf_obj::{
+    parse_pdf_obj, ArrayT, DictKey, DictT, IndirectP, IndirectT, PDFObjContext, PDFObjT, StreamT,
+};
 use parsley_rust::pdf_lib::pdf_prim::*;
+use parsley_rust::pdf_lib::pdf_streams::{ObjStreamP, XrefEntStatus, XrefEntT, XrefStreamP};
+use parsley_rust::rtps_lib::rtps_packet::PacketP;
+use parsley_rust::rtps_lib::rtps_prim as rtps;
+use std::collections::BTreeMap;
+use std::rc::Rc;
+use verif_harness::objfmt::dict_sexp;
 use verif_harness::objfmt::obj_sexp;
 use verif_harness::*;
 
@@ -250,6 +260,350 @@ fn run_cmb(name: &str, pb: &mut ParseBuffer) -> Option<Out> {
     Some(o)
 }
 
+
+// ---------------------------------------------------------------------------------------------
+// the remaining ParsleyParser implementors (pdf_file.rs, IndirectP, the stream parsers, the
+// content-stream object parser and text extractor, rtps_lib).  Values are printed with their nested
+// located parts RE-BASED to the start of the outer value (`<part>@<start-base>-<end-base>`), so that a
+// faithful re-parse of the reported span prints the same text.
+
+fn relp(x: usize, base: usize) -> i64 { x as i64 - base as i64 }
+
+// an object whose stream content carries an absolute offset: printed relative to `base`
+fn rel_obj(o: &PDFObjT, base: usize) -> String {
+    match o {
+        PDFObjT::Stream(s) => {
+            let mut out = String::from("(stream ");
+            dict_sexp(s.dict().val(), &mut out);
+            let c = s.stream().val();
+            out.push_str(&format!(" {} {} {})", relp(c.start(), base), c.size(), hex(c.content())));
+            out
+        },
+        _ => obj_sexp(o),
+    }
+}
+
+fn show_ind(v: &LocatedVal<IndirectT>, base: usize) -> String {
+    let o = v.val().obj();
+    format!(
+        "{} {} {}@{}-{}",
+        v.val().num(),
+        v.val().gen(),
+        rel_obj(o.val(), base),
+        relp(o.start(), base),
+        relp(o.end(), base)
+    )
+}
+
+fn show_xent(e: &XrefEntT) -> String {
+    match e.status() {
+        XrefEntStatus::Free { next } => format!("{}:{}:f:{}", e.obj(), e.gen(), next),
+        XrefEntStatus::InUse { file_ofs } => format!("{}:{}:n:{}", e.obj(), e.gen(), file_ofs),
+        XrefEntStatus::InStream {
+            stream_obj,
+            obj_index,
+        } => format!("{}:{}:s:{}:{}", e.obj(), e.gen(), stream_obj, obj_index),
+    }
+}
+
+fn show_xents(es: &[LocatedVal<XrefEntT>], base: usize) -> String {
+    if es.is_empty() {
+        return "-".to_string()
+    }
+    es.iter()
+        .map(|e| format!("{}@{}-{}", show_xent(e.val()), relp(e.start(), base), relp(e.end(), base)))
+        .collect::<Vec<_>>()
+        .join(",")
+}
+
+fn lvo(o: PDFObjT) -> Rc<LocatedVal<PDFObjT>> { Rc::new(LocatedVal::new(o, 0, 0)) }
+fn int_obj(i: usize) -> Rc<LocatedVal<PDFObjT>> { lvo(PDFObjT::Integer(IntegerT::new(i as i64))) }
+fn name_obj(n: &[u8]) -> Rc<LocatedVal<PDFObjT>> { lvo(PDFObjT::Name(NameT::new(n.to_vec()))) }
+
+// a stream object with the given dictionary, built through the crate's public constructors; its own
+// content is not what the stream parsers read (they parse the buffer they are given)
+fn mk_stream(m: BTreeMap<DictKey, Rc<LocatedVal<PDFObjT>>>) -> StreamT {
+    let dict = Rc::new(LocatedVal::new(DictT::new(m), 0, 0));
+    let sc = StreamContentT::new(0, 0, Vec::new());
+    StreamT::new(dict, LocatedVal::new(sc, 0, 0))
+}
+
+// the numbers and brackets of a derived Debug rendering (the rtps value types keep their fields
+// private; field names are dropped): tokens joined by ','
+fn dbg_digest(s: &str) -> String {
+    let b = s.as_bytes();
+    let mut v: Vec<String> = Vec::new();
+    let mut i = 0;
+    while i < b.len() {
+        let c = b[i];
+        if c == b'[' || c == b']' {
+            v.push((c as char).to_string());
+            i += 1
+        } else if c.is_ascii_digit() && (i == 0 || !(b[i - 1].is_ascii_alphanumeric() || b[i - 1] == b'_')) {
+            let st = i;
+            while i < b.len() && b[i].is_ascii_digit() {
+                i += 1
+            }
+            v.push(s[st .. i].to_string())
+        } else {
+            i += 1
+        }
+    }
+    v.join(",")
+}
+
+fn conv_dbg<T: PartialEq + std::fmt::Debug>(r: ParseResult<LocatedVal<T>>, pb: &ParseBuffer) -> Out {
+    conv(r, pb, &|v: &T| dbg_digest(&format!("{:?}", v)))
+}
+
+fn cs_digest(o: &CSObjT) -> String {
+    match o {
+        CSObjT::Op(n) => format!("(op {})", hex(n.as_bytes())),
+        CSObjT::Array(a) => arr_sexp(a),
+        CSObjT::Dict(d) => {
+            let mut out = String::new();
+            dict_sexp(d, &mut out);
+            out
+        },
+        CSObjT::Boolean(b) => b.to_string(),
+        CSObjT::String(v) => format!("(str {})", hex(v)),
+        CSObjT::Name(n) => format!("(name {})", hex(n.val())),
+        CSObjT::Null(_) => "null".to_string(),
+        CSObjT::Comment(c) => format!("(comment {})", hex(c)),
+        CSObjT::Integer(i) => format!("(int {})", i.int_val()),
+        CSObjT::Real(r) => {
+            let s = format!("{:?}", r);
+            let inner = s.trim_start_matches("RealT(").trim_end_matches(')').to_string();
+            let parts: Vec<&str> = inner.split(", ").collect();
+            format!("(real {} {})", parts[0], parts[1])
+        },
+    }
+}
+
+fn arr_sexp(a: &ArrayT) -> String {
+    let mut out = String::from("(arr");
+    for e in a.objs() {
+        out.push(' ');
+        out.push_str(&obj_sexp(e.val()));
+    }
+    out.push(')');
+    out
+}
+
+// one member of an object stream re-parsed alone: k = equal value consuming the span, d = differs,
+// p = partial, f = fails, r = span outside the content
+fn member_flag(content: &[u8], s: usize, e: usize, d: usize, want: &str) -> char {
+    if !(s <= e && e <= content.len()) {
+        return 'r'
+    }
+    let mut pb = ParseBuffer::new(content[s .. e].to_vec());
+    let mut ctxt = PDFObjContext::new(d);
+    match parse_pdf_obj(&mut ctxt, &mut pb) {
+        Ok(v) => {
+            if v.start() != 0 || v.end() != e - s || pb.get_cursor() != e - s {
+                'p'
+            } else if obj_sexp(v.val()) != want {
+                'd'
+            } else {
+                'k'
+            }
+        },
+        Err(_) => 'f',
+    }
+}
+
+fn run_file_parser(parts: &[&str], pb: &mut ParseBuffer, window: &[u8]) -> Option<Out> {
+    let usz = |k: usize| -> Option<usize> { parts.get(k)?.parse().ok() };
+    let o = match parts[0] {
+        // pdf_file.rs
+        "fhdr" => {
+            let r = HeaderP.parse(pb);
+            match r {
+                Ok(v) => {
+                    let b = v.start();
+                    let ver = v.val().version();
+                    let bin = match v.val().binary() {
+                        Some(x) => format!("{}@{}-{}", hex(x.val()), relp(x.start(), b), relp(x.end(), b)),
+                        None => "none".to_string(),
+                    };
+                    let val = format!("{}@{}-{} {}", hex(ver.val()), relp(ver.start(), b), relp(ver.end(), b), bin);
+                    Out { ok: Some((v.start(), v.end(), val)), err: None, cursor: pb.get_cursor() }
+                },
+                Err(e) => Out { ok: None, err: Some(errk(e.val())), cursor: pb.get_cursor() },
+            }
+        },
+        "sxref" => {
+            let r = StartXrefP.parse(pb);
+            match r {
+                Ok(v) => Out { ok: Some((v.start(), v.end(), v.val().offset().to_string())), err: None, cursor: pb.get_cursor() },
+                Err(e) => Out { ok: None, err: Some(errk(e.val())), cursor: pb.get_cursor() },
+            }
+        },
+        "trailer" => {
+            let mut ctxt = PDFObjContext::new(usz(1)?);
+            let r = TrailerP::new(&mut ctxt).parse(pb);
+            match r {
+                Ok(v) => {
+                    let mut val = String::new();
+                    dict_sexp(v.val().dict(), &mut val);
+                    Out { ok: Some((v.start(), v.end(), val)), err: None, cursor: pb.get_cursor() }
+                },
+                Err(e) => Out { ok: None, err: Some(errk(e.val())), cursor: pb.get_cursor() },
+            }
+        },
+        "xsect" => {
+            let r = XrefSectP.parse(pb);
+            match r {
+                Ok(v) => {
+                    let b = v.start();
+                    let subs: Vec<String> = v
+                        .val()
+                        .sects()
+                        .iter()
+                        .map(|s| {
+                            format!(
+                                "{}+{}@{}-{}[{}]",
+                                s.val().start(),
+                                s.val().count(),
+                                relp(s.start(), b),
+                                relp(s.end(), b),
+                                show_xents(s.val().ents(), b)
+                            )
+                        })
+                        .collect();
+                    let val = if subs.is_empty() { "-".to_string() } else { subs.join(";") };
+                    Out { ok: Some((v.start(), v.end(), val)), err: None, cursor: pb.get_cursor() }
+                },
+                Err(e) => Out { ok: None, err: Some(errk(e.val())), cursor: pb.get_cursor() },
+            }
+        },
+        "ind" => {
+            let mut ctxt = PDFObjContext::new(usz(1)?);
+            let r = IndirectP::new(&mut ctxt).parse(pb);
+            match r {
+                Ok(v) => Out { ok: Some((v.start(), v.end(), show_ind(&v, v.start()))), err: None, cursor: pb.get_cursor() },
+                Err(e) => Out { ok: None, err: Some(errk(e.val())), cursor: pb.get_cursor() },
+            }
+        },
+        "body" => {
+            let mut ctxt = PDFObjContext::new(usz(1)?);
+            let r = BodyP::new(&mut ctxt).parse(pb);
+            match r {
+                Ok(v) => {
+                    let b = v.start();
+                    let objs: Vec<String> = v
+                        .val()
+                        .objs()
+                        .iter()
+                        .map(|o| format!("{{{}}}@{}-{}", show_ind(o, b), relp(o.start(), b), relp(o.end(), b)))
+                        .collect();
+                    let val = if objs.is_empty() { "-".to_string() } else { objs.join(" ") };
+                    Out { ok: Some((v.start(), v.end(), val)), err: None, cursor: pb.get_cursor() }
+                },
+                Err(e) => Out { ok: None, err: Some(errk(e.val())), cursor: pb.get_cursor() },
+            }
+        },
+        // pdf_streams.rs: the buffer is the decoded stream content (no /Filter in the dictionary)
+        "os" => {
+            let (d, n, first) = (usz(1)?, usz(2)?, usz(3)?);
+            let mut m = BTreeMap::new();
+            m.insert(DictKey::new(b"Type".to_vec()), name_obj(b"ObjStm"));
+            m.insert(DictKey::new(b"N".to_vec()), int_obj(n));
+            m.insert(DictKey::new(b"First".to_vec()), int_obj(first));
+            let stream = mk_stream(m);
+            let mut ctxt = PDFObjContext::new(d);
+            let r = ObjStreamP::new(&mut ctxt, &stream).parse(pb);
+            match r {
+                Ok(v) => {
+                    let content: &[u8] = if first <= window.len() { &window[first ..] } else { &[] };
+                    let mut flags = String::new();
+                    let mut ms: Vec<String> = Vec::new();
+                    for mbr in v.val().objs() {
+                        let sx = obj_sexp(mbr.val().obj().val());
+                        flags.push(member_flag(content, mbr.start(), mbr.end(), d, &sx));
+                        ms.push(format!("{{{} {}}}@{}-{}", mbr.val().num(), sx, mbr.start(), mbr.end()));
+                    }
+                    let val = format!(
+                        "{} parts={}",
+                        if ms.is_empty() { "-".to_string() } else { ms.join(" ") },
+                        if flags.is_empty() { "-".to_string() } else { flags }
+                    );
+                    Out { ok: Some((v.start(), v.end(), val)), err: None, cursor: pb.get_cursor() }
+                },
+                Err(e) => Out { ok: None, err: Some(errk(e.val())), cursor: pb.get_cursor() },
+            }
+        },
+        // `xsh`: the same behind /Filter /ASCIIHexDecode - the buffer is the ENCODED content; the entries are
+        // located in the decoded buffer (printed with base 0)
+        "xs" | "xsh" => {
+            let hexf = parts[0] == "xsh";
+            let (w0, w1, w2, size) = (usz(1)?, usz(2)?, usz(3)?, usz(4)?);
+            let mut m = BTreeMap::new();
+            m.insert(DictKey::new(b"Type".to_vec()), name_obj(b"XRef"));
+            m.insert(DictKey::new(b"Size".to_vec()), int_obj(size));
+            let w = vec![int_obj(w0), int_obj(w1), int_obj(w2)];
+            m.insert(DictKey::new(b"W".to_vec()), lvo(PDFObjT::Array(ArrayT::new(w))));
+            if let Some(ix) = parts.get(5) {
+                let ix = ix.strip_prefix('I')?;
+                let mut v = Vec::new();
+                for t in ix.split('.') {
+                    v.push(int_obj(t.parse().ok()?));
+                }
+                m.insert(DictKey::new(b"Index".to_vec()), lvo(PDFObjT::Array(ArrayT::new(v))));
+            }
+            if hexf {
+                m.insert(DictKey::new(b"Filter".to_vec()), name_obj(b"ASCIIHexDecode"));
+            }
+            let stream = mk_stream(m);
+            let r = XrefStreamP::new(false, &stream).parse(pb);
+            match r {
+                Ok(v) => {
+                    let base = if hexf { 0 } else { v.start() };
+                    Out { ok: Some((v.start(), v.end(), show_xents(v.val().ents(), base))), err: None, cursor: pb.get_cursor() }
+                },
+                Err(e) => Out { ok: None, err: Some(errk(e.val())), cursor: pb.get_cursor() },
+            }
+        },
+        // pdf_content_streams.rs
+        "cs" => {
+            let mut ctxt = PDFObjContext::new(usz(1)?);
+            let r = CSObjP::new(&mut ctxt).parse(pb);
+            conv(r, pb, &|o: &CSObjT| cs_digest(o))
+        },
+        "te" => {
+            let mut ctxt = PDFObjContext::new(usz(1)?);
+            let r = TextExtractor::new(&mut ctxt, &(0, 0)).parse(pb);
+            conv(r, pb, &|ts: &Vec<TextToken>| {
+                if ts.is_empty() {
+                    return "-".to_string()
+                }
+                ts.iter()
+                    .map(|t| match t {
+                        TextToken::Space => "S".to_string(),
+                        TextToken::RawText(v) => format!("T{}", hex(v)),
+                    })
+                    .collect::<Vec<_>>()
+                    .join(",")
+            })
+        },
+        // rtps_lib
+        "rpv" => conv_dbg(rtps::ProtocolVersionP.parse(pb), pb),
+        "rvid" => conv_dbg(rtps::VendorIdP.parse(pb), pb),
+        "rgp" => conv_dbg(rtps::GuidPrefixP.parse(pb), pb),
+        "rhdr" => conv_dbg(rtps::HeaderP.parse(pb), pb),
+        "rsmh" => conv_dbg(rtps::SubMessageHeaderP.parse(pb), pb),
+        "rsm" => conv_dbg(rtps::SubMessageP.parse(pb), pb),
+        "rpkt" => conv_dbg(PacketP.parse(pb), pb),
+        _ => return None,
+    };
+    Some(o)
+}
+
+const FILE_PARSERS: [&str; 18] = [
+    "fhdr", "sxref", "trailer", "xsect", "ind", "body", "os", "xs", "xsh", "cs", "te", "rpv", "rvid", "rgp", "rhdr", "rsmh",
+    "rsm", "rpkt",
+];
+
 fn endian(p: &str) -> Endian { if p.ends_with("le") { Endian::Little } else { Endian::Big } }
 
 // where the parser runs
@@ -315,12 +669,16 @@ fn make_buffer(frame: &Frame, buf: &[u8]) -> Option<ParseBuffer> {
 
 fn run_parser(p: &str, frame: &Frame, buf: &[u8], pos: usize) -> Option<Out> {
     let mut pb = make_buffer(frame, buf)?;
+    let window: Vec<u8> = pb.buf().to_vec(); // cursor 0: all bytes of the (innermost) window
     if pb.set_cursor(pos).is_err() {
         return None
     }
     let unit = |_: &()| "unit".to_string();
     let hx = |v: &Vec<u8>| hex(v);
     let parts: Vec<&str> = p.split(':').collect();
+    if FILE_PARSERS.contains(&parts[0]) {
+        return run_file_parser(&parts, &mut pb, &window)
+    }
     let o = match parts[0] {
         "wsn0" => conv(WhitespaceNoEOL::new(false).parse(&mut pb), &pb, &unit),
         "wsn1" => conv(WhitespaceNoEOL::new(true).parse(&mut pb), &pb, &unit),
@@ -382,7 +740,7 @@ fn show(p: &str, o: &Out) -> String {
     match (&o.ok, o.err) {
         (Some((s, e, v)), _) => format!("ok {} {} {} {}", s, e, o.cursor, v),
         (None, Some(k)) => {
-            if p.starts_with("obj:") {
+            if p.starts_with("obj:") || p.starts_with("os:") || p.starts_with("te:") || p.starts_with("xsh:") {
                 format!("err {}", k)
             } else {
                 format!("err {} {}", k, o.cursor)
